@@ -4,7 +4,7 @@
 //!     reply-time vs timeout boundaries are hit exactly; call / multi_call / call_and_forward.
 //! th: many concurrent callers on real threads racing a stop/kill of the callee (cross-wiring and
 //!     "never hangs" under parallelism).
-use std::collections::HashMap;
+use std::collections::{HashMap, HashSet};
 use std::sync::Arc;
 use std::time::Duration;
 
@@ -75,11 +75,13 @@ impl Actor for Callee {
                 let v = f(id, self.idx);
                 match beh {
                     Beh::Now => {
+                        self.trace.log(Ev::Call { client, op: "replying", arg: id });
                         let ok = reply.send(v).is_ok();
                         self.trace.log(Ev::Ret { client, op: "reply", arg: id, res: ok as i64 });
                     }
                     Beh::After(ms) => {
                         tokio::time::sleep(Duration::from_millis(ms)).await;
+                        self.trace.log(Ev::Call { client, op: "replying", arg: id });
                         let ok = reply.send(v).is_ok();
                         self.trace.log(Ev::Ret { client, op: "reply", arg: id, res: ok as i64 });
                     }
@@ -87,6 +89,9 @@ impl Actor for Callee {
                         let tr = self.trace.clone();
                         tokio::spawn(async move {
                             tokio::time::sleep(Duration::from_millis(ms)).await;
+                            // the attempt is logged BEFORE the send: the result record after it may trail the caller's return
+                            // (this task can be pre-empted between the two), the attempt record cannot
+                            tr.log(Ev::Call { client, op: "replying", arg: id });
                             let ok = reply.send(v).is_ok();
                             tr.log(Ev::Ret { client, op: "reply", arg: id, res: ok as i64 });
                         });
@@ -159,8 +164,12 @@ fn check_calls(calls: &[CallRec], recs: &[Rec], exact_time: bool) -> Vec<(String
     // callee side: (id, idx) -> (reply sent ok?, time ms), dequeued?
     let mut reply: HashMap<(u64, u64), (bool, u64, u64)> = HashMap::new();
     let mut dequeued: HashMap<(u64, u64), u64> = HashMap::new();
+    let mut replying: HashSet<(u64, u64)> = HashSet::new();
     for r in recs {
         match &r.ev {
+            Ev::Call { client, op, arg } if *client >= CALLEE_CLIENT && *client < CALLEE_CLIENT + 100 && *op == "replying" => {
+                replying.insert((*arg, (*client - CALLEE_CLIENT) as u64));
+            }
             Ev::Ret { client, op, arg, res } if *client >= CALLEE_CLIENT && *client < CALLEE_CLIENT + 100 && *op == "reply" => {
                 let idx = (*client - CALLEE_CLIENT) as u64;
                 if reply.insert((*arg, idx), (*res == 1, r.ms, r.ts)).is_some() {
@@ -187,6 +196,7 @@ fn check_calls(calls: &[CallRec], recs: &[Rec], exact_time: bool) -> Vec<(String
                 }
                 match rp {
                     Some((true, _, _)) => {}
+                    None if replying.contains(&key) => {} // sent; the callee's own result record trails
                     other => v.push(("success-without-reply".to_string(), format!("call {} returned Success but the callee's reply log says {other:?}", c.id))),
                 }
             }
